@@ -133,6 +133,16 @@ def run_one(case):
             TIMERS = {'on': (1.0, 'stop'), 'warm': (2 * MS, 'go')}
             EVENTS = [['start', ['off'], 'on'], ['stop', None, 'off'], ['go', ['warm'], 'on']]
 
+            def __init__(self, *args, fault=None, **kwargs):
+                self.fault = fault
+                super().__init__(*args, **kwargs)
+
+            def calc_output(self):
+                if self.fault == 'calc_output':
+                    # fails when the initial state has been entered and its timer is already set
+                    raise Boom('fsm calc_output')
+                return super().calc_output()
+
         first_probe = None
         for idx, bd in enumerate(case['blocks']):
             name = f"b{idx}"
@@ -163,7 +173,7 @@ def run_one(case):
             elif t == 'mtask':
                 blk = MT(name, fault=bd.get('fault'), stop_timeout=(5 if bd.get('fault') == 'slow_cleanup' else 20) * MS)
             elif t == 'fsm':
-                blk = F(name, initdef='warm' if bd.get('chain') else 'on')
+                blk = F(name, fault=bd.get('fault'), initdef='warm' if bd.get('chain') else 'on')
             elif t == 'repeat':
                 blk = edzed.Repeat(name, dest='b0', etype='put', interval=1.0)
             elif t == 'vpoll':
@@ -510,13 +520,15 @@ def gen_case(rng):
                 sites += [(i, f) for f in ('start', 'init_async', 'stop', 'stop_async')]
             elif bd['t'] == 'mtask':
                 sites += [(i, 'main')]
+            elif bd['t'] == 'fsm':
+                sites += [(i, 'calc_output')]
             elif bd['t'] == 'func':
                 sites += [(i, 'calc'), (i, 'calc0')]
         i, f = rng.choice(sites)
         if not (i == 0 and f in ('init_regular', 'init_from_value', 'start', 'restore')) or rng.random() < 0.3:
             blocks[i]['fault'] = f
             fault_ms = dict(handler=6, calc=6, main=7, handler_sim=6).get(f)
-            if f in ('start', 'init_regular', 'init_from_value', 'calc0', 'handler_init'):
+            if f in ('start', 'init_regular', 'init_from_value', 'calc0', 'handler_init', 'calc_output'):
                 fault_ms = 0 if f == 'start' else 4
     cause = rng.choice([None] + CAUSES + CAUSES)
     instant = rng.choice(['before_start', 'async_init', 'async_init', 'running', 'running', 'running'])
